@@ -100,8 +100,10 @@ class CSSCharsetRule(cssrule.CSSRule):
 
         encodingtoken = self._nexttoken(tokenizer)
         encodingtype = self._type(encodingtoken)
-        encoding = self._stringtokenvalue(encodingtoken)
-        if self._prods.STRING != encodingtype or not encoding:
+        encoding = None
+        if self._prods.STRING == encodingtype:
+            encoding = self._stringtokenvalue(encodingtoken)
+        if not encoding:
             wellformed = False
             self._log.error(
                 'CSSCharsetRule: no encoding found; %r.' % self._valuestr(cssText)
